@@ -60,7 +60,7 @@ def grep_gate(paths):
 def build_coq(rep, cov):
     """(a) the development (make is a no-op when current) and the Props-style file"""
     cmds = []
-    mk = "coq_makefile -f _CoqProject -o Makefile.coq && make -f Makefile.coq -j8"
+    mk = "{ [ Makefile.coq -nt _CoqProject ] || coq_makefile -f _CoqProject -o Makefile.coq; } && make -f Makefile.coq -j8"
     rc, log, secs = sh(["timeout", "170", "sh", "-c", mk], EFF, 180)
     cmds.append("cd coq_effects && " + mk)
     if rc != 0:
@@ -339,12 +339,17 @@ def run(rep, tier_, rng):
     for name, ls in sorted(leak_by_fn.items()):
         if name in unsafe or name in BY_DESIGN:
             continue
-        l = ls[0]
-        rep.violation("ABSTRACTION UNSOUND or unmodelled entry point: %s.%s is called safe by the analysis but leaks: %s -> %s" %
-                      (l["ctx"], name, l["prec_before"], l["prec_after"]),
-                      {"fn": name, "ctx": l["ctx"], "args": l["args"], "fault_at": l["fault_at"], "cb_fault_at": l["cb_fault_at"],
-                       "prec_before": l["prec_before"], "prec_after": l["prec_after"], "outcome": l["outcome"], "static": "safe"})
-        unsound.append(name)
+        seen_args = []
+        for l in ls:
+            if l["args"] in seen_args or len(seen_args) >= 3:
+                continue
+            seen_args.append(l["args"])
+            if rep.violation("ABSTRACTION UNSOUND or unmodelled entry point: %s.%s is called safe by the analysis but leaks: %s -> %s" %
+                             (l["ctx"], name, l["prec_before"], l["prec_after"]),
+                             {"fn": name, "ctx": l["ctx"], "args": l["args"], "fault_at": l["fault_at"], "cb_fault_at": l["cb_fault_at"],
+                              "prec_before": l["prec_before"], "prec_after": l["prec_after"], "outcome": l["outcome"], "static": "safe"}):
+                if name not in unsound:
+                    unsound.append(name)
     nspecial = nmodel = 0
     if special is None or model is None:
         rep.violation("manager / setter tests did not run", {"theorem": "c11_dyn special tests"}, no_input=True)
